@@ -439,6 +439,88 @@ func hashCmd(args []string) error {
 			}
 		}
 	}
+	// (a'') sizes and counts at which an implementation might change strategy (impl only): files of 1 MiB and 32 MiB and a little
+	// more, lists a little longer than the number of CPUs.  Every byte of every listed file counts, a file's timestamps do not,
+	// and a file that opens but cannot be read is an error
+	if *shard == 1%*nshards {
+		big := filepath.Join(root, "big")
+		os.MkdirAll(big, 0o755)
+		sizes := []int{1 << 20, 1<<20 + 1, 1<<20 + 65536, 4 << 20}
+		if *tier == "thorough" {
+			sizes = append(sizes, 32<<20, 32<<20+1, 40<<20)
+		} else {
+			sizes = append(sizes, 33<<20)
+		}
+		for si, n := range sizes {
+			p := filepath.Join(big, fmt.Sprintf("b%d.bin", si))
+			data := make([]byte, n)
+			for i := range data {
+				data[i] = byte(i * 7)
+			}
+			os.WriteFile(p, data, 0o644)
+			l := []string{p, filepath.Join(root, "v0", "a")}
+			d0 := ask(&w, bin, gmps[si%4], l, 60*time.Second)
+			st.BySource["large-file(impl only)"]++
+			// (i) touching the file (new modification time, same bytes) changes nothing
+			os.Chtimes(p, time.Unix(1000000000+int64(si), 0), time.Unix(1000000000+int64(si), 0))
+			if d1 := ask(&w, bin, gmps[si%4], l, 60*time.Second); dg(d0) != "" && dg(d1) != dg(d0) {
+				fail("C04", fmt.Sprintf("large-file-%d", n), fmt.Sprintf("a file of %d bytes: changing only its modification time changed the digest", n))
+			}
+			// (ii) editing one byte - near the start, in the middle, the last one - changes the digest
+			for _, off := range []int{100, n / 2, n - 1} {
+				data[off] ^= 0xff
+				os.WriteFile(p, data, 0o644)
+				d2 := ask(&w, bin, gmps[si%4], l, 60*time.Second)
+				if dg(d0) != "" && dg(d2) == dg(d0) {
+					fail("C04", fmt.Sprintf("large-file-%d", n), fmt.Sprintf("a file of %d bytes: editing byte %d left the digest unchanged", n, off))
+				}
+				data[off] ^= 0xff
+			}
+			os.Remove(p)
+		}
+		// lists of 2*NumCPU+1 and 3*NumCPU+5 distinct files: every position counts, whatever the order
+		many := filepath.Join(root, "many")
+		os.MkdirAll(many, 0o755)
+		for _, n := range []int{2*runtime.NumCPU() + 1, 3*runtime.NumCPU() + 5, runtime.NumCPU() + 1} {
+			var l []string
+			for i := 0; i < n; i++ {
+				p := filepath.Join(many, fmt.Sprintf("m%03d.dat", i))
+				os.WriteFile(p, []byte(fmt.Sprintf("content %d", i)), 0o644)
+				l = append(l, p)
+			}
+			d0 := ask(&w, bin, gmps[n%4], l, 30*time.Second)
+			st.BySource["long-list(impl only)"]++
+			rev := make([]string, n)
+			for i := range l {
+				rev[n-1-i] = l[i]
+			}
+			if d1 := ask(&w, bin, gmps[(n+1)%4], rev, 30*time.Second); dg(d0) != "" && dg(d1) != dg(d0) {
+				fail("C04", fmt.Sprintf("long-list-%d", n), fmt.Sprintf("a list of %d files hashed in reverse order gives another digest", n))
+			}
+			for _, i := range []int{0, n / 2, n - 2, n - 1} {
+				os.WriteFile(l[i], []byte("edited"), 0o644)
+				if d2 := ask(&w, bin, gmps[n%4], l, 30*time.Second); dg(d0) != "" && dg(d2) == dg(d0) {
+					fail("C04", fmt.Sprintf("long-list-%d", n), fmt.Sprintf("a list of %d files: editing file number %d left the digest unchanged", n, i))
+				}
+				os.WriteFile(l[i], []byte(fmt.Sprintf("content %d", i)), 0o644)
+			}
+			if d3 := ask(&w, bin, gmps[n%4], l[:n-1], 30*time.Second); dg(d0) != "" && dg(d3) == dg(d0) {
+				fail("C04", fmt.Sprintf("long-list-%d", n), fmt.Sprintf("a list of %d files: dropping the last one left the digest unchanged", n))
+			}
+		}
+		// a file that can be opened but not read (reading /proc/self/mem at offset 0 fails with EIO)
+		if _, err := os.Stat("/proc/self/mem"); err == nil {
+			lnk := filepath.Join(root, "unreadable-content")
+			os.Symlink("/proc/self/mem", lnk)
+			for _, l := range [][]string{{lnk}, {filepath.Join(root, "v0", "a"), lnk}, {lnk, filepath.Join(root, "v0", "b"), filepath.Join(root, "v0", "z")}} {
+				res := ask(&w, bin, gmps[len(l)%4], l, 10*time.Second)
+				st.BySource["read-error(impl only)"]++
+				if res != "ERR" {
+					fail("C18", "read-error", fmt.Sprintf("a list of %d entries with a file whose content cannot be read gave %s instead of an error", len(l), res))
+				}
+			}
+		}
+	}
 	// (a') change sensitivity when the list names a file more than once (impl only: the files are rewritten)
 	if *shard == 0 {
 		for k := 0; k < 12; k++ {
